@@ -151,18 +151,26 @@ namespace occa {
         }
       } else {
         uint64_t value_ = parseInt(std::string(c0, c - c0));
-        if (longs == 0) {
-          if (unsigned_) {
-            p = (uint32_t) value_;
-          } else {
-            p = (int32_t) value_;
-          }
-        } else if (longs >= 1) {
-          if (unsigned_) {
-            p = (uint64_t) value_;
-          } else {
-            p = (int64_t) value_;
-          }
+        // As in C++, the literal gets the first type that holds its value:
+        //   int32, int64 for decimal literals (uint32, uint64 with U),
+        //   int32, uint32, int64, uint64 for octal ones
+        const uint64_t magnitude = negative ? ((~value_) + 1) : value_;
+        const char *cDigits = c0;
+        if ((*cDigits == '+') || (*cDigits == '-')) {
+          ++cDigits;
+          lex::skipWhitespace(cDigits);
+        }
+        const bool octal = (*cDigits == '0');
+        if ((longs == 0) && !unsigned_ && (magnitude <= 0x7FFFFFFFull)) {
+          p = (int32_t) value_;
+        } else if ((longs == 0) && (magnitude <= 0xFFFFFFFFull) && (unsigned_ || octal)) {
+          p = (uint32_t) value_;
+        } else if (!unsigned_ && (magnitude <= 0x7FFFFFFFFFFFFFFFull)) {
+          p = (int64_t) value_;
+        } else if (unsigned_ || octal) {
+          p = (uint64_t) value_;
+        } else {
+          p = (int64_t) value_;
         }
       }
     }
